@@ -200,3 +200,44 @@ Theorem C13_refuted_neg_complex :
               judge_lit l o = v_kf "neg-complex".
 Proof. exact (ex_intro _ w_cplx (ex_intro _ o_cplx refuted_neg_complex)). Qed.
 Print Assumptions C13_refuted_neg_complex.
+
+(* C13_holds: outside the known-finding classes ([kf_name l = None]) every observation the faithful model of
+   the code predicts for the literal (str::parse correctly rounded, i64::from_str_radix, R64::new beyond i64,
+   negation, complex assembly; Model/Literal.v §5) satisfies the property. *)
+Theorem C13_holds : forall (l : lit) (o : obs),
+  kf_name l = None -> predicted l o = true -> C13_spec l o.
+Proof. exact holds_outside_classes. Qed.
+Print Assumptions C13_holds.
+
+(* every canonical (sign, M, e) of binary64 (and infinity) IS a bit pattern: the floats the checker's theorem
+   quantifies over are exactly the finite doubles *)
+Theorem C13_bits_roundtrip : forall v : fval, fval_wf f64 v -> decode_bits f64 (encode_bits f64 v) = Some v.
+Proof. exact decode_encode_f64. Qed.
+Print Assumptions C13_bits_roundtrip.
+
+(* ---------------------------------------------------------------- non-vacuity *)
+(* 0.1 is 0x3FB999999999999A; 5e-324-ish subnormals, the power-of-two boundary and the overflow threshold are decided;
+   the judge accepts the implementation's answers for `0.1`, `300u8` (clamped) and `6/8`, and refuses 434.99999999999994 for 435. *)
+Example C13_example_checker :
+  is_nearest_bits f64 4591870180066957722 (1 # 10) = true /\
+  is_nearest_bits f64 4591870180066957721 (1 # 10) = false /\
+  is_nearest_bits f64 1 (1 # Z.to_pos (2 ^ 1074)) = true /\                        (* smallest subnormal *)
+  is_nearest_bits f64 0 (1 # Z.to_pos (2 ^ 1075)) = true /\                        (* half of it: tie to even = 0 *)
+  is_nearest_bits f64 1 (1 # Z.to_pos (2 ^ 1075)) = false /\
+  is_nearest_bits f64 4845873199050653696 (9007199254740993 # 1) = true /\         (* 2^53+1 -> 2^53 (tie, even) *)
+  is_nearest_bits f64 4845873199050653697 (9007199254740993 # 1) = false /\
+  is_nearest_bits f64 9218868437227405311 (2 ^ 1024 - 2 ^ 970 - 1 # 1) = true /\   (* just below the threshold: max *)
+  is_nearest_bits f64 9218868437227405312 (2 ^ 1024 - 2 ^ 970 # 1) = true /\       (* threshold: +inf *)
+  is_nearest_bits f32 1036831949 (1 # 10) = true.
+Proof. vm_compute. repeat split; reflexivity. Qed.
+Print Assumptions C13_example_checker.
+
+Example C13_example_judge :
+  judge_lit (LReal false (BFloat "0" "1") ANone) (OVal (KS "f64" (Zx 4591870180066957722))) = v_ok "nearest-f64" /\
+  judge_lit (LReal false (BInt "300") (ASuffix "u8")) (OVal (KS "u8" (Zx 255))) = v_ok "clamped" /\
+  judge_lit (LReal false (BRat "6" "8") ANone) (OVal (KS "r64" (Lx [Zx 3; Zx 4]))) = v_ok "rational-reduced" /\
+  judge_lit (LReal false (BRat "6" "0") ANone) OErr = v_ok "zero-denominator-error" /\
+  judge_lit (LReal false (BFloat "435" "0") ANone) (OVal (KS "f64" (Zx 4646360217120931839)))
+    = v_bad "not-the-denoted-value" (Lx [Ax "nearest"; Ax "f64"; Zx 4350; Zx 10]).
+Proof. vm_compute. repeat split; reflexivity. Qed.
+Print Assumptions C13_example_judge.
